@@ -2,6 +2,7 @@
   C11 -- functions keep their signature.
 -/
 import OlVerif.Lower.Stmt
+import OlVerif.Lower.WfOut
 
 namespace OlVerif.C11
 
@@ -64,5 +65,39 @@ theorem sig (n : Nsp) (po as : List String) (va : Option String) (ko : List Stri
     · rename_i kd' hkd
       simp only [pure, Except.pure, Except.ok.injEq] at h
       exact ⟨kd', ds', h.symm, transfList_length _ _ _ _ hds, transfOptList_shape _ _ _ _ hkd⟩
+
+/-- **Decorators nest in source order**: the lowered form of `@d1 @d2 … @dk` around a function is
+    `d1'(d2'(… dk'(f)))` with each `di'` the decorator expression transformed in the defining namespace - the last
+    decorator is applied first, and (function position before argument, M-ORDER) `d1'` is evaluated first. -/
+theorem decorators_nest (n : Nsp) : ∀ (ds : List Expr) (f r : Expr), applyDecorators n ds f = .ok r →
+    ∃ ds', transfList n [] ds = .ok ds' ∧ r = ds'.foldr (fun d acc => Expr.call d [acc] []) f
+  | [], f, r, h => by simp only [applyDecorators] at h; cases h; exact ⟨[], rfl, rfl⟩
+  | d :: ds, f, r, h => by
+      simp only [applyDecorators] at h
+      obtain ⟨inner, hi, h⟩ := bind_ok h
+      obtain ⟨d', hd, h⟩ := bind_ok h
+      cases pure_ok h
+      obtain ⟨ds', hds, rfl⟩ := decorators_nest n ds f inner hi
+      refine ⟨d' :: ds', ?_, rfl⟩
+      simp only [transfList, hd, hds]; rfl
+
+/-- **A function definition lowers to one binding**: the name is bound, through the namespace of the scope the
+    `def` stands in, to the decorators applied around a lambda whose parameter list is the one of `sig` and whose
+    body is `[…, return value][-1]`; the implicit-classmethod hooks get their wrapper outside the decorators. -/
+theorem def_shape (cx : Ctx) (name : String) (args : Arguments) (body : List Stmt) (decorators : List Expr) (lineno : Nat)
+    (st st' : St) (es : List Expr) (h : lowerStmt cx (.functionDef name args body decorators lineno) st = .ok (es, st')) :
+    ∃ inner args' items lam lam' e, findChild cx.nsp name lineno .function = .ok inner ∧
+      lowerFunctionHead cx.nsp args = .ok args' ∧
+      applyDecorators cx.nsp decorators (.lambda args' (.subscript (listWrapper (items ++ [.name inner.retvName])) Expr.neg1)) = .ok lam ∧
+      (lam' = lam ∨ lam' = hookWrap lam) ∧ cx.nsp.getAssign name lam' = .ok e ∧ es = [e] := by
+  simp only [lowerStmt] at h
+  obtain ⟨inner, hin, h⟩ := bind_ok h
+  obtain ⟨args', ha, h⟩ := bind_ok h
+  obtain ⟨⟨b, st1⟩, _, h⟩ := bind_ok h
+  obtain ⟨lam, hl, h⟩ := bind_ok h
+  obtain ⟨e, he, h⟩ := bind_ok h
+  cases pure_ok h
+  refine ⟨inner, args', _, lam, _, e, hin, ha, hl, ?_, he, rfl⟩
+  split <;> simp
 
 end OlVerif.C11
